@@ -1,9 +1,361 @@
 package main
 
 import (
+	"fmt"
+	"math"
+
+	"github.com/tdewolff/canvas"
+
+	"verifharness/internal/cq"
 	"verifharness/internal/out"
+	"verifharness/internal/pd"
 	"verifharness/internal/rng"
 )
 
-func arcCase(o *out.W, i int, r *rng.R, probe bool, stats map[string]*stat) {}
-func publicCase(o *out.W, i int, r *rng.R)                                  {}
+// Pythagorean directions with a common hypotenuse: (a,b)/h are exact rational points of the unit circle.
+type dirSet struct {
+	h    int
+	dirs [][2]int
+}
+
+func signed(ds [][2]int) [][2]int {
+	var o [][2]int
+	seen := map[[2]int]bool{}
+	for _, d := range ds {
+		for _, s := range [][2]int{{1, 1}, {-1, 1}, {1, -1}, {-1, -1}} {
+			for _, sw := range []bool{false, true} {
+				v := [2]int{s[0] * d[0], s[1] * d[1]}
+				if sw {
+					v = [2]int{v[1], v[0]}
+				}
+				if !seen[v] {
+					seen[v] = true
+					o = append(o, v)
+				}
+			}
+		}
+	}
+	return o
+}
+
+var dirSets = []dirSet{
+	{5, signed([][2]int{{5, 0}, {3, 4}})},
+	{25, signed([][2]int{{25, 0}, {7, 24}, {15, 20}})},
+	{65, signed([][2]int{{65, 0}, {16, 63}, {33, 56}, {25, 60}, {39, 52}})},
+}
+
+func b2s(b bool) string { return cq.Bool(b) }
+
+func arcCase(o *out.W, i int, r *rng.R, probe bool, stats map[string]*stat) {
+	if probe {
+		return
+	}
+	if r.P(3, 5) {
+		circleCase(o, i, r)
+	} else {
+		ellipseCase(o, i, r)
+	}
+}
+
+func circleCase(o *out.W, i int, r *rng.R) {
+	ds := rng.Pick(r, dirSets)
+	fam := "circle"
+	den := 8 * ds.h / 5 // unit = 1/den: radius = j*h/den
+	j := r.Range(1, 16)
+	if ds.h == 65 {
+		den = 64
+		j = r.Range(1, 10)
+	} else if ds.h == 25 {
+		den = 32
+		j = r.Range(1, 12)
+	}
+	if r.P(1, 8) {
+		den *= 8
+		j = r.Range(1, 3)
+		fam = "circle-small-radius"
+	}
+	unit := 1 / float64(den)
+	rad := float64(j*ds.h) * unit
+	c := rp(r, 40)
+	d0 := rng.Pick(r, ds.dirs)
+	d1 := rng.Pick(r, ds.dirs)
+	for d1 == d0 {
+		d1 = rng.Pick(r, ds.dirs)
+	}
+	start := P{X: c.X + float64(j*d0[0])*unit, Y: c.Y + float64(j*d0[1])*unit}
+	end := P{X: c.X + float64(j*d1[0])*unit, Y: c.Y + float64(j*d1[1])*unit}
+	large, sweep := r.Bool(), r.Bool()
+	phi := 0.0
+	if r.P(1, 4) {
+		phi = float64(r.Range(-24, 24)) / 8
+		fam += "+phi"
+	}
+	rGiven := rad
+	if r.P(1, 10) { // radius too small: the code scales it up to half the chord
+		rGiven = rad / float64(r.Range(2, 5))
+		fam = "circle-radius-scaled"
+		// choose a diameter so that the scaled circle is known: end opposite to start
+		end = P{X: c.X - float64(j*d0[0])*unit, Y: c.Y - float64(j*d0[1])*unit}
+	}
+	for _, tol := range tols {
+		var p *canvas.Path
+		var cx, cy float64
+		pmsg := safe(func() {
+			p = canvas.VerifFlattenEllipticArc(start, rGiven, rGiven, phi, large, sweep, end, tol)
+			cx, cy, _, _ = canvas.VerifEllipseToCenter(start.X, start.Y, rGiven, rGiven, phi, large, sweep, end.X, end.Y)
+		})
+		var vs []P
+		ok := pmsg == ""
+		if ok {
+			vs, ok = polyline(p)
+			ok = ok && finite(vs) && !math.IsNaN(cx) && !math.IsNaN(cy)
+		}
+		term := fmt.Sprintf("CCirc (mkCirc %s %s %s %s %s %s) %s false nil", cq.Pt(start.X, start.Y), cq.Pt(end.X, end.Y), cq.F(rad), b2s(large), b2s(sweep), cq.Pt(0, 0), cq.F(tol))
+		if ok {
+			term = fmt.Sprintf("CCirc (mkCirc %s %s %s %s %s %s) %s true %s", cq.Pt(start.X, start.Y), cq.Pt(end.X, end.Y), cq.F(rad), b2s(large), b2s(sweep), cq.Pt(cx, cy), cq.F(tol), pts(vs))
+		}
+		desc := map[string]interface{}{"arc": fmt.Sprintf("M%g %gA%g %g %g %v %v %g %g", start.X, start.Y, rGiven, rGiven, phi*180/math.Pi, large, sweep, end.X, end.Y),
+			"true_centre": []float64{c.X, c.Y}, "true_radius": rad, "go_centre": []float64{cx, cy}, "tol": tol, "go_vertices": ptsDesc(vs), "panic": pmsg}
+		o.Emit(out.Case{I: i, Fam: fam, Coq: term, Desc: desc, Tags: []string{"CCirc"}})
+	}
+}
+
+var rots = [][3]int{{1, 0, 1}, {0, 1, 1}, {3, 4, 5}, {4, 3, 5}, {-3, 4, 5}, {7, 24, 25}, {24, 7, 25}}
+
+func ellipseCase(o *out.W, i int, r *rng.R) {
+	rot := rng.Pick(r, rots)
+	fam := "ellipse-axis"
+	if rot[2] != 1 {
+		fam = "ellipse-rotated"
+	}
+	cosphi, sinphi := float64(rot[0])/float64(rot[2]), float64(rot[1])/float64(rot[2])
+	phi := math.Atan2(float64(rot[1]), float64(rot[0]))
+	// radii multiples of 25*5/16 resp. 5/8 keep the end points dyadic
+	unit := 5.0 / 8
+	if rot[2] == 5 {
+		unit = 25.0 / 16
+	} else if rot[2] == 25 {
+		unit = 125.0 / 32
+	}
+	jx, jy := r.Range(1, 8), r.Range(1, 8)
+	for jx == jy {
+		jy = r.Range(1, 8)
+	}
+	if r.P(1, 6) {
+		jx, jy = r.Range(8, 16), 1 // large radii ratio
+		fam += "-thin"
+	}
+	rx, ry := float64(jx)*unit, float64(jy)*unit
+	c := rp(r, 40)
+	ds := dirSets[0] // (3,4,5) parameter directions
+	d0 := rng.Pick(r, ds.dirs)
+	d1 := rng.Pick(r, ds.dirs)
+	for d1 == d0 {
+		d1 = rng.Pick(r, ds.dirs)
+	}
+	pos := func(d [2]int) P {
+		u, v := rx*float64(d[0])/5, ry*float64(d[1])/5
+		return P{X: c.X + cosphi*u - sinphi*v, Y: c.Y + sinphi*u + cosphi*v}
+	}
+	start, end := pos(d0), pos(d1)
+	large, sweep := r.Bool(), r.Bool()
+	var bz [][4]P
+	pmsg := safe(func() { bz = canvas.VerifEllipseToCubicBeziers(start, rx, ry, phi, large, sweep, end) })
+	ok := pmsg == "" && len(bz) > 0
+	var cubs []string
+	for _, b := range bz {
+		if !finite(b[:]) {
+			ok = false
+		}
+	}
+	if ok {
+		for _, b := range bz {
+			cubs = append(cubs, pts(b[:]))
+		}
+	}
+	ell := fmt.Sprintf("(mkEll %s %s %s %s %s)", cq.Pt(c.X, c.Y), cq.F(rx), cq.F(ry), cq.Q(int64(rot[0]), int64(rot[2])), cq.Q(int64(rot[1]), int64(rot[2])))
+	term := fmt.Sprintf("CArcCube %s %s %s", ell, b2s(ok), cq.List(cubs))
+	desc := map[string]interface{}{"arc": fmt.Sprintf("M%g %gA%g %g %g %v %v %g %g", start.X, start.Y, rx, ry, phi*180/math.Pi, large, sweep, end.X, end.Y),
+		"centre": []float64{c.X, c.Y}, "cos_sin": []float64{cosphi, sinphi}, "cubics": len(bz), "panic": pmsg}
+	o.Emit(out.Case{I: i, Fam: fam, Coq: term, Desc: desc, Tags: []string{"CArcCube"}})
+	// flattenEllipticArc on a non-circular ellipse is arcToCube(...).Flatten(tol): certify the flattening of each emitted cubic
+	if ok {
+		tol := rng.Pick(r, tols)
+		for _, b := range bz {
+			emitBezier(o, i, bcase{"cube-from-arc", b[:]}, tol)
+		}
+	}
+}
+
+// ---- x-monotone splitting -------------------------------------------------------------------------------
+
+func xmonoCase(o *out.W, i int, r *rng.R) {
+	var bc bcase
+	if r.Bool() {
+		bc = genQuad(r)
+	} else {
+		bc = genCube(r)
+	}
+	c := bc.ctrl
+	var p *canvas.Path
+	pmsg := safe(func() {
+		if len(c) == 3 {
+			p = canvas.VerifXMonotoneQuadraticBezier(c[0], c[1], c[2])
+		} else {
+			p = canvas.VerifXMonotoneCubicBezier(c[0], c[1], c[2], c[3])
+		}
+	})
+	ok := pmsg == ""
+	var pieces [][]P
+	var junctions []P
+	if ok {
+		segs, err := pd.Decode(p.Data())
+		ok = err == nil && len(segs) >= 1 && segs[0].Cmd == 'M'
+		if ok {
+			junctions = append(junctions, P{X: segs[0].X, Y: segs[0].Y})
+			for _, s := range segs[1:] {
+				pc := []P{{X: s.X0, Y: s.Y0}}
+				switch {
+				case s.Cmd == 'Q' && len(c) == 3:
+					pc = append(pc, P{X: s.A[0], Y: s.A[1]}, P{X: s.X, Y: s.Y})
+				case s.Cmd == 'C' && len(c) == 4:
+					pc = append(pc, P{X: s.A[0], Y: s.A[1]}, P{X: s.A[2], Y: s.A[3]}, P{X: s.X, Y: s.Y})
+				case s.Cmd == 'L': // the builder turns a straight Bezier into a line: same control polygon, evenly spaced
+					for k := 1; k < len(c); k++ {
+						pc = append(pc, lerp(P{X: s.X0, Y: s.Y0}, P{X: s.X, Y: s.Y}, float64(k)/float64(len(c)-1)))
+					}
+					ok = false // cannot be compared control point by control point: skip (counted)
+				default:
+					ok = false
+				}
+				if !finite(pc) {
+					ok = false
+				}
+				pieces = append(pieces, pc)
+				junctions = append(junctions, P{X: s.X, Y: s.Y})
+			}
+		}
+	}
+	fam := "xmono-" + bc.fam
+	if pmsg == "" && !ok {
+		// degenerate output (lines): not judged, reported as skipped
+		o.Emit(out.Case{I: i, Fam: fam + "/skipped-line-output", Coq: "CXMono nil true nil (0 :: 1 :: nil)", Desc: map[string]interface{}{"curve": svgOf(c), "out": p.String()}, Tags: []string{"skip"}})
+		return
+	}
+	var ts []float64
+	var pcs []string
+	if ok {
+		ts = recoverParams(c, junctions)
+		for _, pc := range pieces {
+			pcs = append(pcs, pts(pc))
+		}
+	}
+	term := fmt.Sprintf("CXMono %s %s %s %s", pts(c), b2s(ok), cq.List(pcs), cq.Floats(ts))
+	outS := ""
+	if p != nil {
+		outS = p.String()
+	}
+	o.Emit(out.Case{I: i, Fam: fam, Coq: term, Desc: map[string]interface{}{"curve": svgOf(c), "out": outS, "params": ts, "panic": pmsg}, Tags: []string{"CXMono"}})
+}
+
+// ---- public entry points: structure ------------------------------------------------------------------------
+
+func summarise(p *canvas.Path) (string, int, bool) {
+	segs, err := pd.Decode(p.Data())
+	if err != nil {
+		return "nil", 0, false
+	}
+	var xs []string
+	for _, sp := range pd.Subpaths(segs) {
+		if len(sp) == 0 || sp[0].Cmd != 'M' {
+			return "nil", 0, false
+		}
+		kinds := 0
+		closed := false
+		for _, s := range sp[1:] {
+			switch s.Cmd {
+			case 'L':
+				kinds |= 1
+			case 'Q':
+				kinds |= 2
+			case 'C':
+				kinds |= 4
+			case 'A':
+				kinds |= 8
+			case 'Z':
+				closed = true
+			}
+		}
+		last := sp[len(sp)-1]
+		if !finite([]P{{X: sp[0].X, Y: sp[0].Y}, {X: last.X, Y: last.Y}}) {
+			return "nil", 0, false
+		}
+		xs = append(xs, fmt.Sprintf("(mkSS %s %s %s %s)", cq.Pt(sp[0].X, sp[0].Y), cq.Pt(last.X, last.Y), b2s(closed), cq.Z(int64(kinds))))
+	}
+	return cq.List(xs), len(xs), true
+}
+
+func publicCase(o *out.W, i int, r *rng.R) {
+	p := &canvas.Path{}
+	nsub := r.Range(1, 4)
+	for s := 0; s < nsub; s++ {
+		st := rp(r, 80)
+		p.MoveTo(st.X, st.Y)
+		nseg := r.Range(1, 5)
+		for k := 0; k < nseg; k++ {
+			switch r.Intn(5) {
+			case 0:
+				e := rp(r, 80)
+				p.LineTo(e.X, e.Y)
+			case 1:
+				a, e := rp(r, 80), rp(r, 80)
+				p.QuadTo(a.X, a.Y, e.X, e.Y)
+			case 2:
+				a, b, e := rp(r, 80), rp(r, 80), rp(r, 80)
+				p.CubeTo(a.X, a.Y, b.X, b.Y, e.X, e.Y)
+			default:
+				e := rp(r, 80)
+				rot := float64(r.Range(0, 11)) * 30
+				p.ArcTo(g8(r.Range(1, 80)), g8(r.Range(1, 80)), rot, r.Bool(), r.Bool(), e.X, e.Y)
+			}
+		}
+		if r.Bool() {
+			p.Close()
+		}
+	}
+	in, _, okIn := summarise(p)
+	if !okIn {
+		return
+	}
+	src := p.String()
+	for op := 0; op < 3; op++ {
+		var q *canvas.Path
+		tol := rng.Pick(r, tols)
+		pmsg := safe(func() {
+			switch op {
+			case 0:
+				q = p.Flatten(tol)
+			case 1:
+				q = p.ReplaceArcs()
+			default:
+				q = p.XMonotone()
+			}
+		})
+		ok := pmsg == ""
+		outS, res := "nil", ""
+		if ok {
+			outS, _, ok = summarise(q)
+			res = q.String()
+			if len(res) > 400 {
+				res = res[:400] + "..."
+			}
+		}
+		if p.String() != src {
+			ok = false // the receiver was modified
+			pmsg = "receiver modified"
+		}
+		term := fmt.Sprintf("CPub %s %s %s %s", cq.Z(int64(op)), b2s(ok), in, outS)
+		o.Emit(out.Case{I: i, Fam: []string{"public-Flatten", "public-ReplaceArcs", "public-XMonotone"}[op], Coq: term,
+			Desc: map[string]interface{}{"path": src, "op": op, "tol": tol, "result": res, "panic": pmsg}, Tags: []string{"CPub"}})
+	}
+}
